@@ -163,21 +163,43 @@ def gen_reads(rng, uses, own, p_get):
         uses.append({"g": "a", "u": {kind: [nm, rng.choice(POP_DEFAULTS)]}})
 
 
-def gen_forward(rng, entries, bases_of, self_idx, where):
+def ancestors(bases_of, i):
+    """the class and everything it inherits from (generator-side, depth first; only used to find visible classmethods)"""
+    seen, order = set(), []
+
+    def walk(k):
+        if k in seen:
+            return
+        seen.add(k)
+        order.append(k)
+        for b in bases_of[k]:
+            walk(b)
+
+    walk(i)
+    return order
+
+
+def gen_forward(rng, entries, bases_of, self_idx, where, allow_attr=False):
     """one forwarding use (model JSON shape) or None"""
     cands = []
     fns = [i for i, e in enumerate(entries[:self_idx]) if e["kind"] == "fn"]
     clss = [i for i, e in enumerate(entries[:self_idx]) if e["kind"] == "cls"]
+    # classmethods visible on an earlier class: (class asked, defining class, index)
+    cms = [(sub, o, j) for sub in clss for o in ancestors(bases_of, sub) for j in range(len(entries[o]["cmeths"]))]
     if where == "init":
         cands += ["super"] * 8
         if entries[self_idx]["meths"]:
             cands += ["self"] * 2
+        if allow_attr and (fns or clss):
+            cands += ["attr"] * 3
     if where == "cmeth":
         cands += ["cls"] * 8
     if fns:
         cands += ["fn"] * (2 if where in ("init", "cmeth") else 6)
     if clss:
         cands += ["ctor"] * (1 if where in ("init", "cmeth") else 3)
+    if cms:
+        cands += ["cmethcall"] * (1 if where in ("init", "cmeth") else 3)
     if not cands:
         return None
     kind = rng.choice(cands)
@@ -200,6 +222,16 @@ def gen_forward(rng, entries, bases_of, self_idx, where):
     if kind == "cls":
         k, given = gen_hard(rng, static_init(entries, bases_of, self_idx))
         return {"call": {"t": ["cls"], "k": k, "given": given}}
+    if kind == "cmethcall":
+        sub, o, j = rng.choice(cms)
+        k, given = gen_hard(rng, entries[o]["cmeths"][j])
+        return {"call": {"t": ["cmeth", sub, o, j], "k": k, "given": given}}
+    if kind == "attr":
+        i = rng.choice(fns + clss)
+        callee = entries[i]["c"] if entries[i]["kind"] == "fn" else static_init(entries, bases_of, i)
+        k, given = gen_hard(rng, callee)
+        return {"attr": {"t": ["entry", i], "k": k, "given": given, "via": rng.choice(["method", "property"]),
+                         "how": rng.choice(["assign", "assign", "update"])}}
     if kind == "fn":
         i = rng.choice(fns)
         k, given = gen_hard(rng, entries[i]["c"])
@@ -246,7 +278,7 @@ def gen_callable(rng, entries, bases_of, self_idx, where, knobs):
         if fw2 is not None:
             uses.append({"g": {"const": not live}, "u": fw2})
         return c
-    fw = gen_forward(rng, entries, bases_of, self_idx, where)
+    fw = gen_forward(rng, entries, bases_of, self_idx, where, allow_attr=True)
     if fw is not None:
         uses.append({"g": "a", "u": fw})
     return c
@@ -297,7 +329,7 @@ def gen_program(rng, knobs=None):
             e["meths"].append(gen_callable(rng, entries, bases_of, idx, "meth", knobs))
         if rng.random() >= knobs["p_noinit"] or not bases:
             e["init"] = gen_callable(rng, entries, bases_of, idx, "init", knobs)
-        if rng.random() < 0.2:
+        if rng.random() < 0.3:
             e["cmeths"].append(gen_callable(rng, entries, bases_of, idx, "cmeth", knobs))
     return {"entries": entries}
 
@@ -329,6 +361,19 @@ def render_args(k, given):
     return ", ".join(["1"] * k + ["%s=1" % g for g in given] + ["**kwargs"])
 
 
+def fwd_part(u):
+    """the {k, given, ...} record of a forwarding use (super / call / attribute use)"""
+    return u.get("super") or u.get("call") or u.get("attr")
+
+
+def callee_expr(prog, t):
+    if t[0] == "entry":
+        return prog["entries"][t[1]]["name"]
+    if t[0] == "cmeth":
+        return "%s.mk%d_%d" % (prog["entries"][t[1]]["name"], t[2], t[3])
+    raise MachineryError("no expression for target %r" % (t,))
+
+
 def render_use(u, prog, self_idx, n):
     if "pop" in u:
         return "v%d = kwargs.pop(%r, %s)" % (n, u["pop"][0], lit(u["pop"][1]))
@@ -338,13 +383,25 @@ def render_use(u, prog, self_idx, n):
         s = u["super"]
         sup = "super()" if s["frm"] is None else "super(%s, self)" % prog["entries"][s["frm"]]["name"]
         return "%s.__init__(%s)" % (sup, render_args(s["k"], s["given"]))
+    if "attr" in u:
+        # **kwargs kept in an attribute and forwarded by a method/property, which is exercised right away
+        a = u["attr"]
+        store = ("self._kw%d = kwargs" % self_idx) if a["how"] == "assign" else ("self._kw%d = dict()\nself._kw%d.update(**kwargs)" % (self_idx, self_idx))
+        return store + ("\nself.use%d()" % self_idx if a["via"] == "method" else "\nv%d = self.use%d" % (n, self_idx))
     c = u["call"]
     t = c["t"]
-    if t[0] == "entry":
-        return "%s(%s)" % (prog["entries"][t[1]]["name"], render_args(c["k"], c["given"]))
+    if t[0] in ("entry", "cmeth"):
+        return "%s(%s)" % (callee_expr(prog, t), render_args(c["k"], c["given"]))
     if t[0] == "self":
         return "self.m%d_%d(%s)" % (self_idx, t[1], render_args(c["k"], c["given"]))
     return "return cls(%s)" % render_args(c["k"], c["given"])
+
+
+def attr_use_of(c):
+    for g in (c["uses"] if c and c["varkw"] else []):
+        if "attr" in g["u"]:
+            return g["u"]["attr"]
+    return None
 
 
 def render_body(c, prog, self_idx, tag, ind):
@@ -355,7 +412,7 @@ def render_body(c, prog, self_idx, tag, ind):
     while i < len(uses):
         g = uses[i]
         if g["g"] == "a":
-            out.append(ind + render_use(g["u"], prog, self_idx, n))
+            out.extend(ind + l for l in render_use(g["u"], prog, self_idx, n).split("\n"))
             i += 1
             n += 1
         elif "const" in g["g"]:
@@ -414,10 +471,18 @@ def render(prog):
             empty = False
         for j, m in enumerate(e["cmeths"]):
             out.append("    @classmethod")
-            out.append("    def make%d(%s):" % (j, render_sig(m, "cls")))
-            out.extend(render_body(m, prog, idx, "%s.make%d" % (e["name"], j), "        "))
+            out.append("    def mk%d_%d(%s):" % (idx, j, render_sig(m, "cls")))
+            out.extend(render_body(m, prog, idx, "%s.mk%d_%d" % (e["name"], idx, j), "        "))
             out.append("")
             empty = False
+        au = attr_use_of(e["init"])
+        if au is not None:
+            if au["via"] == "property":
+                out.append("    @property")
+            out.append("    def use%d(self):" % idx)
+            out.append("        _T(%r, locals())" % ("%s.use%d" % (e["name"], idx)))
+            out.append("        return %s(%s)" % (callee_expr(prog, au["t"]), render_args(au["k"], au["given"]).replace("**kwargs", "**self._kw%d" % idx)))
+            out.append("")
         if empty:
             out.append("    pass")
             out.append("")
@@ -467,42 +532,80 @@ def real_mro(prog, mod, idx):
 
 
 # ---------------------------------------------------------------- model JSON
-def m_callable(c):
+def m_callable(c, vis=None):
     return {
         "params": [{"name": p["name"], "ty": TYPE_ATOMS[p["ty"]], "dflt": None if p["dflt"] is None else dval(p["dflt"][1]), "kind": p["kind"]}
                    for p in c["params"]],
         "varkw": c["varkw"],
-        "uses": [{"g": g["g"], "u": m_use(g["u"])} for g in c["uses"]],
+        "uses": [{"g": g["g"], "u": m_use(g["u"], vis)} for g in c["uses"]],
     }
 
 
-def m_use(u):
+def m_use(u, vis=None):
     if "pop" in u:
         return {"pop": [u["pop"][0], dval(u["pop"][1])]}
     if "get" in u:
         return {"get": [u["get"][0], dval(u["get"][1])]}
+    if "attr" in u:
+        # the model's `Target.attrEntry`: same callee, but the call does not feed the shared `removed` set
+        a = u["attr"]
+        return {"call": {"t": ["attr", a["t"][1]], "k": a["k"], "given": a["given"]}}
+    if "call" in u and u["call"]["t"][0] == "cmeth":
+        c = u["call"]
+        sub, o, j = c["t"][1:]
+        return {"call": {"t": ["cmeth", sub, vis(sub).index((o, j))], "k": c["k"], "given": c["given"]}}
     return u
 
 
+def visible_cmeths(prog, mros, sub):
+    """classmethods a class offers (attribute lookup along its MRO): [(defining class, index)]"""
+    return [(o, j) for o in [sub] + mros[sub] for j in range(len(prog["entries"][o]["cmeths"]))]
+
+
+def model_supported(prog):
+    """every shape the generator emits has a constructor in the Lean model"""
+    return True
+
+
 def to_model(prog, mros):
+    """the model's view: a class lists every classmethod it offers, inherited ones included (the lookup is an input, like the MRO)"""
+    def vis(sub):
+        return visible_cmeths(prog, mros, sub)
+
     es = []
     for i, e in enumerate(prog["entries"]):
         if e["kind"] == "fn":
-            es.append({"fn": m_callable(e["c"])})
+            es.append({"fn": m_callable(e["c"], vis)})
         else:
-            es.append({"cls": {"init": None if e["init"] is None else m_callable(e["init"]), "mro": mros[i],
-                               "meths": [m_callable(m) for m in e["meths"]], "cmeths": [m_callable(m) for m in e["cmeths"]]}})
+            es.append({"cls": {"init": None if e["init"] is None else m_callable(e["init"], vis), "mro": mros[i],
+                               "meths": [m_callable(m, vis) for m in e["meths"]],
+                               "cmeths": [m_callable(prog["entries"][o]["cmeths"][j], vis) for o, j in vis(i)]}})
     return {"entries": es}
 
 
-def queries_of(prog):
+def model_query(prog, mros, q):
+    if q[0] == "entry":
+        return q
+    return ["cmeth", q[1], visible_cmeths(prog, mros, q[1]).index((q[2], q[3]))]
+
+
+def queries_of(prog, mros):
+    """every function, every class, every classmethod on every class that offers it (also by inheritance)"""
     qs = []
     for i, e in enumerate(prog["entries"]):
         qs.append(["entry", i])
         if e["kind"] == "cls":
-            for j in range(len(e["cmeths"])):
-                qs.append(["cmeth", i, j])
+            for o, j in visible_cmeths(prog, mros, i):
+                qs.append(["cmeth", i, o, j])
     return qs
+
+
+def top_callable(prog, q):
+    """the callable whose body the resolver visits first for a query (None: class without own __init__)"""
+    e = prog["entries"][q[1]]
+    if q[0] == "cmeth":
+        return prog["entries"][q[2]]["cmeths"][q[3]]
+    return e["c"] if e["kind"] == "fn" else e["init"]
 
 
 def universe(prog):
@@ -517,10 +620,8 @@ def universe(prog):
                 ns.add(u["pop"][0])
             elif "get" in u:
                 ns.add(u["get"][0])
-            elif "super" in u:
-                ns.update(u["super"]["given"])
             else:
-                ns.update(u["call"]["given"])
+                ns.update(fwd_part(u)["given"])
 
     for e in prog["entries"]:
         if e["kind"] == "fn":
@@ -574,7 +675,7 @@ def target_of(prog, mod, q):
     obj = getattr(mod, e["name"])
     if q[0] == "entry":
         return obj, None
-    return obj, "make%d" % q[2]
+    return obj, "mk%d_%d" % (q[2], q[3])
 
 
 def real_resolve(prog, mod, q):
@@ -625,7 +726,7 @@ def tagged_callables(prog):
             if e["init"]:
                 out.append((e["name"] + ".__init__", e["init"]))
             out.extend(("%s.m%d_%d" % (e["name"], idx, j), m) for j, m in enumerate(e["meths"]))
-            out.extend(("%s.make%d" % (e["name"], j), m) for j, m in enumerate(e["cmeths"]))
+            out.extend(("%s.mk%d_%d" % (e["name"], idx, j), m) for j, m in enumerate(e["cmeths"]))
     return out
 
 
@@ -747,11 +848,11 @@ def live_uses(c):
 
 
 def is_forward(u):
-    return "super" in u or "call" in u
+    return "super" in u or "call" in u or "attr" in u
 
 
 def fwd_given(u):
-    return (u.get("super") or u.get("call"))["given"]
+    return fwd_part(u)["given"]
 
 
 def reach(prog, mros, q):
@@ -759,20 +860,23 @@ def reach(prog, mros, q):
     seen, out = set(), []
 
     def visit_callable(tag, c, owner):
-        if tag in seen:
+        if (tag, owner) in seen:
             return
-        seen.add(tag)
+        seen.add((tag, owner))
         out.append((tag, c, owner))
         for u in live_uses(c):
-            if "call" in u:
-                t = u["call"]["t"]
-                if t[0] == "entry":
-                    visit_entry(t[1])
-                elif t[0] == "self":
-                    e = prog["entries"][owner]
-                    visit_callable("%s.m%d_%d" % (e["name"], owner, t[1]), e["meths"][t[1]], owner)
-                else:
-                    visit_entry(owner)
+            t = fwd_part(u)["t"] if ("call" in u or "attr" in u) else None
+            if t is None:
+                continue
+            if t[0] == "entry":
+                visit_entry(t[1])
+            elif t[0] == "self":
+                e = prog["entries"][owner]
+                visit_callable("%s.m%d_%d" % (e["name"], owner, t[1]), e["meths"][t[1]], owner)
+            elif t[0] == "cmeth":
+                visit_callable("%s.mk%d_%d" % (prog["entries"][t[2]]["name"], t[2], t[3]), prog["entries"][t[2]]["cmeths"][t[3]], t[1])
+            else:
+                visit_entry(owner)
 
     def visit_entry(i):
         e = prog["entries"][i]
@@ -790,8 +894,8 @@ def reach(prog, mros, q):
     if q[0] == "entry":
         visit_entry(q[1])
     else:
-        e = prog["entries"][q[1]]
-        visit_callable("%s.make%d" % (e["name"], q[2]), e["cmeths"][q[2]], q[1])
+        e = prog["entries"][q[2]]
+        visit_callable("%s.mk%d_%d" % (e["name"], q[2], q[3]), e["cmeths"][q[3]], q[1])
     return out
 
 
@@ -904,13 +1008,7 @@ def judge(prog, mod, mros, q, names=None):
                 devs.append({"kind": "accepted-not-offered", "name": n, "finding": classify_missing(n),
                              "detail": "the interpreter accepts %s= (and rejects an unknown name) but it is not offered" % n})
     # a keyword hard-coded by every forwarding call of the asked callable itself
-    top = None
-    if q[0] == "cmeth":
-        top = prog["entries"][q[1]]["cmeths"][q[2]]
-    elif prog["entries"][q[1]]["kind"] == "fn":
-        top = prog["entries"][q[1]]["c"]
-    elif prog["entries"][q[1]]["init"] is not None:
-        top = prog["entries"][q[1]]["init"]
+    top = top_callable(prog, q)
     if top is not None:
         fw = [u for u in live_uses(top) if is_forward(u)]
         read = {u[k][0] for u in live_uses(top) for k in ("pop", "get") if k in u}
@@ -963,13 +1061,22 @@ def value_for(atoms):
 
 
 def parser_surface(prog, mod, q):
-    """names added by add_class_arguments / add_function_arguments / add_method_arguments"""
-    from jsonargparse import ArgumentParser
+    """names added by add_class_arguments / add_function_arguments / add_method_arguments (+ class_from_function for classmethods)"""
+    from jsonargparse import ArgumentParser, class_from_function
 
     obj, meth = target_of(prog, mod, q)
     parser = ArgumentParser(exit_on_error=False)
     if meth:
         added = parser.add_method_arguments(obj, meth, "k", fail_untyped=False)
+        _PKG["n"] += 1
+        wname = "_W%d_%s_%s" % (_PKG["n"], obj.__name__, meth)  # class_from_function registers the class in the calling module
+        try:
+            wrapped = class_from_function(getattr(obj, meth), obj, name=wname)
+            added2 = ArgumentParser(exit_on_error=False).add_class_arguments(wrapped, "k", fail_untyped=False)
+        finally:
+            globals().pop(wname, None)
+        if added2 != added:
+            return parser, ["<class_from_function>"] + [a[2:] for a in added2]
     elif inspect.isclass(obj):
         added = parser.add_class_arguments(obj, "k", fail_untyped=False)
     else:
@@ -1036,7 +1143,7 @@ def shrink_prog(prog, q, still_bad, budget=150):
             for ui, g in enumerate(c["uses"]):
                 u = g["u"]
                 if is_forward(u):
-                    h = u.get("super") or u.get("call")
+                    h = fwd_part(u)
                     if h["k"]:
                         cands.append(("k", ui))
                     for gi in range(len(h["given"])):
@@ -1049,9 +1156,9 @@ def shrink_prog(prog, q, still_bad, budget=150):
                 elif cand[0] == "param":
                     del tc["params"][cand[1]]
                 elif cand[0] == "k":
-                    (tc["uses"][cand[1]]["u"].get("super") or tc["uses"][cand[1]]["u"].get("call"))["k"] = 0
+                    fwd_part(tc["uses"][cand[1]]["u"])["k"] = 0
                 else:
-                    del (tc["uses"][cand[1]]["u"].get("super") or tc["uses"][cand[1]]["u"].get("call"))["given"][cand[2]]
+                    del fwd_part(tc["uses"][cand[1]]["u"])["given"][cand[2]]
                 budget -= 1
                 try:
                     ok = still_bad(trial)
@@ -1091,6 +1198,8 @@ def features(prog, mros):
                     f.add("diamond")
             if e["init"] is None and e["bases"]:
                 f.add("no-own-init")
+            if any(o != i for o, _ in visible_cmeths(prog, mros, i)):
+                f.add("inherited-classmethod")
     for tag, c in tagged_callables(prog):
         if any(p["kind"] == "ko" for p in c["params"]):
             f.add("keyword-only")
@@ -1107,8 +1216,10 @@ def features(prog, mros):
             elif "get" in u:
                 f.add("get")
             else:
-                h = u.get("super") or u.get("call")
-                f.add("super" if "super" in u else "call-" + u["call"]["t"][0])
+                h = fwd_part(u)
+                f.add("super" if "super" in u else ("attr-use-" + u["attr"]["via"] if "attr" in u else "call-" + u["call"]["t"][0]))
+                if "call" in u and u["call"]["t"][0] == "cmeth" and u["call"]["t"][1] != u["call"]["t"][2]:
+                    f.add("call-inherited-classmethod")
                 if "super" in u and u["super"]["frm"] is not None:
                     f.add("super(X,self)")
                 if h["k"]:
@@ -1119,17 +1230,24 @@ def features(prog, mros):
 
 
 def model_run(ctx, items):
-    """items: list of (prog, mros, queries, names) -> driver results (or None when the model does not build)"""
-    lines = [{"prog": to_model(p, m), "queries": [{"q": q, "names": ns} for q in qs]} for p, m, qs, ns in items]
+    """items: list of (prog, mros, queries, names) -> driver results (None per program the model cannot express;
+    None altogether when the model does not build)"""
+    idxs = [k for k, (p, _, _, _) in enumerate(items) if model_supported(p)]
+    lines = [{"prog": to_model(items[k][0], items[k][1]),
+              "queries": [{"q": model_query(items[k][0], items[k][1], q), "names": items[k][3]} for q in items[k][2]]} for k in idxs]
+    out = [None] * len(items)
     if not lines:
-        return []
+        return out
     try:
-        return ctx.driver("Resolver", lines)
+        res = ctx.driver("Resolver", lines)
     except MachineryError as ex:
         if ctx.lean_ok:
             raise
         ctx.tie_break("correspondence E9 not runnable (model does not build)", str(ex))
         return None
+    for k, r in zip(idxs, res):
+        out[k] = r
+    return out
 
 
 def corr_disagreements(prog, mod, mros, q, names, res, obs=None):
@@ -1187,9 +1305,57 @@ def exhaustive_family(thorough):
     return out
 
 
+def extension_family(thorough):
+    """deterministic programs for the two patterns the Lean model does not express (oracle only):
+    **kwargs kept in an attribute and forwarded by a method/property with hard-coded arguments and pops,
+    and classmethod factories `cls(**kwargs)` reached through subclasses / forwarding functions"""
+    import itertools
+
+    def P(name, ty, d="REQ", kind="pk"):
+        return {"name": name, "ty": ty, "dflt": None if d == "REQ" else ["v", d], "kind": kind}
+
+    def U(u):
+        return {"g": "a", "u": u}
+
+    out = []
+    f0 = {"kind": "fn", "name": "f0", "c": {"params": [P("a", "int", 0), P("b", "str", "x"), P("c", "float", 1.0), P("d", "bool", True, "ko")], "varkw": False, "uses": []}}
+    reads = [None, ("pop", "b", "x"), ("pop", "z", 1), ("pop", "c", 2.5)]
+    for rd, k, gv, via, how, sub in itertools.product(reads, [0, 1, 2], [[], ["c"], ["d"], ["c", "d"]], ["method", "property"],
+                                                      ["assign", "update"] if thorough else ["assign"], [False, True]):
+        if any(g in ["a", "b", "c"][:k] for g in gv):
+            continue
+        uses = ([U({rd[0]: [rd[1], rd[2]]})] if rd else []) + [U({"attr": {"t": ["entry", 0], "k": k, "given": gv, "via": via, "how": how}})]
+        entries = [clone(f0), {"kind": "cls", "name": "K1", "bases": [], "init": {"params": [P("e", "int", 1)], "varkw": True, "uses": uses}, "meths": [], "cmeths": []}]
+        if sub:
+            entries.append({"kind": "cls", "name": "K2", "bases": [1], "init": {"params": [P("g", "int", 0)], "varkw": True,
+                                                                            "uses": [U({"super": {"frm": None, "k": 0, "given": []}})]}, "meths": [], "cmeths": []})
+        out.append({"entries": entries})
+    # classmethod factories through subclasses
+    for own, k, gv, sub_init, with_fn in itertools.product([[P("q", "str"), P("r", "int", 1)], [P("r", "int", 1)], []], [0, 1], [[], ["h"]],
+                                                           ["own", "none", "hard"], [False, True]):
+        base_init = {"params": [P("h", "int", 8), P("p", "float", 0.0)], "varkw": False, "uses": []}
+        cm = {"params": clone(own), "varkw": True, "uses": [U({"call": {"t": ["cls"], "k": k, "given": gv}})]}
+        entries = [{"kind": "cls", "name": "K0", "bases": [], "init": base_init, "meths": [], "cmeths": [cm]}]
+        if sub_init == "none":
+            init = None
+        elif sub_init == "own":
+            init = {"params": [P("l", "int", 2)], "varkw": True, "uses": [U({"super": {"frm": None, "k": 0, "given": []}})]}
+        else:
+            if k:
+                continue
+            init = {"params": [P("l", "int", 2)], "varkw": True, "uses": [U({"super": {"frm": None, "k": 0, "given": ["p"]}})]}
+        entries.append({"kind": "cls", "name": "K1", "bases": [0], "init": init, "meths": [], "cmeths": []})
+        entries.append({"kind": "cls", "name": "K2", "bases": [1], "init": None, "meths": [], "cmeths": []})
+        if with_fn:
+            entries.append({"kind": "fn", "name": "f3", "c": {"params": [P("t", "str", "t")], "varkw": True,
+                                                             "uses": [U({"call": {"t": ["cmeth", 1, 0, 0], "k": 1 if own and own[0]["dflt"] is None else 0, "given": []}})]}})
+        out.append({"entries": entries})
+    return out
+
+
 class _Tally:
     def __init__(self):
-        self.n_dis = self.n_queries = self.n_crash = self.n_uninst = self.n_parser = self.n_wf_queries = self.n_wf_progs = self.n_progs = self.n_syntactic = 0
+        self.n_dis = self.n_queries = self.n_crash = self.n_uninst = self.n_parser = self.n_wf_queries = self.n_wf_progs = self.n_progs = self.n_syntactic = self.n_oracle_only = 0
 
 
 def process(ctx, progs, T, parser_every, is_corpus=False):
@@ -1198,7 +1364,7 @@ def process(ctx, progs, T, parser_every, is_corpus=False):
     for prog, origin in progs:
         mod, mros = prepare(prog)
         names = universe(prog)
-        qs = queries_of(prog)
+        qs = queries_of(prog, mros)
         items.append((prog, mros, qs, names))
         loaded.append((prog, origin, mod, mros, qs, names))
     results = model_run(ctx, items)
@@ -1207,7 +1373,10 @@ def process(ctx, progs, T, parser_every, is_corpus=False):
         for ft in features(prog, mros):
             ctx.hist("features", ft)
         ctx.hist("entries", len(prog["entries"]))
-        if results is not None:
+        res_p = results[idx] if results is not None else None
+        if res_p is None:
+            T.n_oracle_only += 1
+        if res_p is not None:
             if not results[idx]["acyclic"]:
                 ctx.tie_break("generated program is not acyclic for the model (generator and model disagree on the ordering rules)", render(prog)[:1500])
             T.n_wf_progs += 1 if results[idx]["wf"] else 0
@@ -1223,11 +1392,11 @@ def process(ctx, progs, T, parser_every, is_corpus=False):
             if not stats["instantiable"]:
                 T.n_uninst += 1
             e = prog["entries"][q[1]]
-            topc = e["cmeths"][q[2]] if q[0] == "cmeth" else (e["c"] if e["kind"] == "fn" else e["init"])
+            topc = top_callable(prog, q)
             if topc is not None and topc["varkw"] and len(real) > len(topc["params"]):
                 ctx.nontrivial(shape_key(prog, q))
             # ---- correspondence
-            if results is not None:
+            if res_p is not None:
                 dis = corr_disagreements(prog, mod, mros, q, names, results[idx]["results"][qi])
                 if dis:
                     T.n_dis += 1
@@ -1236,7 +1405,7 @@ def process(ctx, progs, T, parser_every, is_corpus=False):
                             m2, mr2 = prepare(p2)
                             try:
                                 ns2 = universe(p2)
-                                r2 = ctx.driver("Resolver", [{"prog": to_model(p2, mr2), "queries": [{"q": q, "names": ns2}]}])
+                                r2 = ctx.driver("Resolver", [{"prog": to_model(p2, mr2), "queries": [{"q": model_query(p2, mr2, q), "names": ns2}]}])
                                 return bool(corr_disagreements(p2, m2, mr2, q, ns2, r2[0]["results"][0]))
                             finally:
                                 unload(m2)
@@ -1249,7 +1418,7 @@ def process(ctx, progs, T, parser_every, is_corpus=False):
                         ctx.violation("model and code disagree (%s): %s" % (dis[0]["side"], dis[0]["what"]),
                                       {"kind": "corr", "prog": small, "q": q, "source": render(small)}, found_input=False)
             # ---- property oracle
-            in_theorem = results is not None and results[idx]["wf"] and results[idx]["results"][qi]["out"] == "ok"
+            in_theorem = res_p is not None and res_p["wf"] and res_p["results"][qi]["out"] == "ok"
             if in_theorem:
                 T.n_wf_queries += 1
             if in_theorem and results[idx]["noclash"]:
@@ -1334,6 +1503,10 @@ def run(ctx: Ctx):
     ctx.extra["exhaustive_two_class_family"] = len(fam)
     for i in range(0, len(fam), 400):
         process(ctx, [(p, "exhaustive-family") for p in fam[i:i + 400]], T, 7)
+    ext = extension_family(ctx.thorough)
+    ctx.extra["attribute_use_and_inherited_classmethod_family"] = len(ext)
+    for i in range(0, len(ext), 400):
+        process(ctx, [(p, "extension-family") for p in ext[i:i + 400]], T, 2)
     done = 0
     while True:
         n_random = ctx.budget(700, 9000) * (2 if ctx.search_boost > 1 else 1)  # a broken tie widens the search
@@ -1361,6 +1534,7 @@ def run(ctx: Ctx):
         else:
             ctx.stale_findings.append(f["id"])
     ctx.extra["programs"] = T.n_progs
+    ctx.extra["programs_oracle_only"] = T.n_oracle_only
     ctx.extra["programs_satisfying_WfProg"] = T.n_wf_progs
     ctx.extra["queries"] = T.n_queries
     ctx.extra["queries_inside_C13_exact_hypotheses"] = T.n_wf_queries
@@ -1384,7 +1558,7 @@ def replay(ctx: Ctx, body):
     obs = interp(prog, mod, q, names)
     print("accepted by the interpreter:", {n: interp_accepts(obs, n) for n in names})
     if r.get("kind") == "corr":
-        res = ctx.driver("Resolver", [{"prog": to_model(prog, mros), "queries": [{"q": q, "names": names}]}])[0]["results"][0]
+        res = ctx.driver("Resolver", [{"prog": to_model(prog, mros), "queries": [{"q": model_query(prog, mros, q), "names": names}]}])[0]["results"][0]
         dis = corr_disagreements(prog, mod, mros, q, names, res, obs)
         print("model:", res["out"], [(p["name"], p["ty"], p["dflt"]) for p in model_params(res)], dict(zip(names, res["accepts"])))
         print("disagreements:", dis)
